@@ -504,6 +504,7 @@ def syncmix(tier, seed, avoid=()):
              ["rw", "atom", "mutex"]]
     # directed core: the property's own example and the shapes of the open completeness findings
     progs.append(wrap([[st("x", 1, "sc"), ld("x", "sc")], [ld("x", "sc"), st("x", 2, "sc")]], [], name="C01-example"))
+    progs.append(with_builder(progs[-1]))
     progs.append(P("F13-trylock-held", SJ(2) + JJ(2), CS("m", ld("x")), [L("trylock", "m"), br(1, 1, 1), L("unlock", "m")]))
     progs.append(P("F9-tryrecv-vs-send", [spawn(2), L("tryrecv", "ch"), join(2), L("droprx", "ch")], [L("send", "ch", v=5)]))
     progs.append(P("F14-count-vs-drop", [spawn(2), L("acount", "a1"), join(2), L("adrop", "a1")], [L("adrop", "a2")],
@@ -547,6 +548,18 @@ def ops_of(p):
     return {i["op"] for th in p["threads"] for i in th}
 
 
+def with_builder(p):
+    """the same program with every thread created through thread::Builder (name + stack size) instead of thread::spawn"""
+    import copy
+    q = copy.deepcopy(p)
+    for th in q["threads"]:
+        for i in th:
+            if i["op"] == "spawn":
+                i["ord"] = "builder"
+    q["name"] = (q.get("name") or "") + "+builder"
+    return q
+
+
 def waived(p):
     """Parts of the comparison that are NOT applied to program p because an open finding
     (known_findings.json / DESIGN.md §8) would fire.  Returns {want-name: finding id}."""
@@ -585,6 +598,8 @@ def race_idioms():
     A(P("join-racy", [spawn(2), rd("c"), join(2)], [wr("c")]))
     A(P("rd-rd-ok", [spawn(2), rd("c"), join(2)], [rd("c")]))
     A(P("wr-wr-racy", [spawn(2), spawn(3), join(2), join(3)], [wr("c")], [wr("c")]))
+    for q in list(out):
+        A(with_builder(q))          # spawn / join edges through thread::Builder
     # mutex hand-over
     A(P("mutex-ok", sj(2) + jj(2), [L("lock", "m"), wr("c"), L("unlock", "m")], [L("lock", "m"), rd("c"), L("unlock", "m")]))
     A(P("mutex-racy", sj(2) + jj(2), [L("lock", "m"), wr("c"), L("unlock", "m")], [L("lock", "m"), L("unlock", "m"), rd("c")]))
@@ -1348,6 +1363,7 @@ def limit_crash_programs():
                  [ld("x"), L("adrop", "a2")], arcs=a2))
     out.append(P("lim-nested-spawn-owns-arc", [spawn(2), ld("x"), L("adrop", "a1"), join(2)],
                  [I("spawn", "a3", v=3), ld("x"), L("adrop", "a2"), join(3)], [ld("x"), L("adrop", "a3")], arcs=a3))
+    out += [with_builder(p) for p in out if p.get("name", "").startswith("lim-")]
     return [normalize(p) for p in out]
 
 
